@@ -41,7 +41,7 @@ fn main() {
         });
         match code {
             Err(msg) => {
-                let _ = writeln!(front, "{id}\terror\t{}", msg.replace('\n', " ").replace('\t', " "));
+                let _ = writeln!(front, "{id}\terror\t{}", msg.replace(['\n', '\r', '\t'], " "));
             }
             Ok(ts) => {
                 let _ = writeln!(front, "{id}\tcode\t");
